@@ -124,24 +124,26 @@ Definition splitlines (s : str) : list str := splitlines_aux s [].
    lines = l10nValue.splitlines()
    if lnr > len(lines):
        lnr = len(lines)
-       col = len(lines[lnr - 1])
+       # an empty value has no lines
+       col = len(lines[lnr - 1]) if lines else 0
    else:
        col = e.getColumnNumber()
        if lnr == 1: col -= len("<elem>")
-       elif lnr == 0: col -= len("<!DOCTYPE elem [")                                     *)
-Definition error_position (l10nValue : str) (line col : Z) : result position :=
+       elif lnr == 0: col -= len("<!DOCTYPE elem [")
+   (total since the repair: before it, lines[-1] of an empty list raised IndexError)      *)
+Definition error_position (l10nValue : str) (line col : Z) : position :=
   let lnr := (line - 1)%Z in
   let lines := splitlines l10nValue in
   if (Z.of_nat (length lines) <? lnr)%Z then
     match lines with
-    | [] => Raise IndexError                        (* lines[-1] of an empty list *)
-    | x :: l => Ok (PTuple (Z.of_nat (length lines)) (Z.of_nat (length (last lines x))))
+    | [] => PTuple 0 0
+    | x :: l => PTuple (Z.of_nat (length lines)) (Z.of_nat (length (last lines x)))
     end
   else
-    Ok (PTuple lnr
-               (if (lnr =? 1)%Z then (col - Z.of_nat col_line1)%Z
-                else if (lnr =? 0)%Z then (col - Z.of_nat col_line0)%Z
-                else col)).
+    PTuple lnr
+           (if (lnr =? 1)%Z then (col - Z.of_nat col_line1)%Z
+            else if (lnr =? 0)%Z then (col - Z.of_nat col_line0)%Z
+            else col).
 
 (* ---- Checker.check (checks/base.py) --------------------------------------------------------------- *)
 Definition check_base (l10n : entity) : result (list issue) :=
@@ -256,13 +258,11 @@ Definition check (cache : option (list str)) (reference : option (list str)) (an
              | Some e => Some e
              | None => sax_err (sax (doc_decl names l10n))
              end in
-  do e_l10n <-
+  let e_l10n :=
     match err with
-    | Some (line, col, msg) =>
-        do p <- error_position l10nValue line col;
-        Ok [var_issue y_xmlparse p msg]
-    | None => Ok []
-    end;
+    | Some (line, col, msg) => [var_issue y_xmlparse (error_position l10nValue line col) msg]
+    | None => []
+    end in
   let suffix := warn_suffix reflist inContext in
   let w_missing := map (unknown_issue suffix) missing in
   let w_mismatch :=
